@@ -53,6 +53,13 @@ func acceptedStates(p *packages.Package, fd *ast.FuncDecl, states map[string]int
 		switch e := e.(type) {
 		case *ast.ParenExpr:
 			return evalC(e.X, st)
+		case *ast.UnaryExpr:
+			if e.Op == token.NOT {
+				if r := evalC(e.X, st); r >= 0 {
+					return 1 - r
+				}
+			}
+			return -1
 		case *ast.BinaryExpr:
 			switch e.Op {
 			case token.LAND:
